@@ -38,9 +38,11 @@ CLAIMED = {
     text=('Coq model of BitStore.find/rfind/findall_msb0 (byte fast path and general path), Bits.find/rfind/findall/__contains__/cut/split/startswith/endswith/count and BitArray._replace. '
           'Proved for all data, patterns, windows, counts and both alignments (msb0): the general path AND the byte fast path (bytes.find over tobytes() of the byte window, overlapping matches included) '
           'equal the brute-force filter; findall = its first `count` elements, find = its head, rfind = its last element, `in` = non-emptiness, every reported position is an occurrence inside the window '
-          'and every occurrence is reported; empty patterns are rejected by find/findall/split; count totals.'),
-    note='PARTIAL in two places: split/replace loop invariants (non-overlapping selection) and the lsb0 variants rest on differential correspondence (860 quick / 15000+ thorough cases incl. >8192-bit data, overlapping self-similar patterns) and the brute-force oracle. Trusted: Prims.search_all as the model of bitarray.search/find, Search.bytes_find as bytes.find.',
-    technique='Coq proof (msb0 search complete; split/replace partial) + vm_compute correspondence + brute-force oracle', design='§5 C07'),
+          'and every occurrence is reported; split partitions the window (the pieces concatenate to d[start:end], every piece after the first begins with the delimiter); replace splices `new` at occurrences of `old` '
+          'inside the window that are increasing, non-overlapping and at most `count`, returns their number, changes the length by n*(|new|-|old|) and leaves everything before and after the window unchanged; '
+          'empty patterns are rejected by find/findall/split; count totals. The lsb0 variants of find/rfind/findall are proved in C12 (mirror of the msb0 search).'),
+    note='Not proved: split with a count (prefix of the partition), cut, startswith/endswith (one-line models), and the lsb0 variants of split/replace; these rest on differential correspondence (860 quick / 15000+ thorough cases incl. >8192-bit data, overlapping self-similar patterns) and the brute-force oracle. Trusted: Prims.search_all as the model of bitarray.search/find, Search.bytes_find as bytes.find.',
+    technique='Coq proof (sorted-list extensionality, loop invariants) + vm_compute correspondence + brute-force oracle', design='§5 C07'),
  'C12': dict(
     text=('Coq theorems, for all contents and arguments: lsb0 indexing is msb0 indexing of the reversed bits; lsb0 slicing with ANY key (any start/stop, positive or negative step; both accessors) is the reversed msb0 slice of the reversed bits '
           '(the repo\'s own hypothesis test states this for positive steps and lengths <= 9); single-bit assignment, inversion and deletion, unit-step slice assignment (operand mirrored too) and deletion obey the mirror law; '
